@@ -29,15 +29,20 @@ def geometry_case(w, h, part, sub=None):
 
     t = StudyTiling(w, h)
     gx0, gy0 = rt.offsets(w, h)
-    if (t._p2n, t._tile_levels, t._img_gx0, t._img_gy0) != (rt.p2n(w, h), rt.levels(w, h), gx0, gy0):
-        bad("layout", "p2n/levels/offsets = %r, reference %r" % ((t._p2n, t._tile_levels, t._img_gx0, t._img_gy0), (rt.p2n(w, h), rt.levels(w, h), gx0, gy0)))
+    # layout through the public interface: number of deepest-level tiles and where image pixel (0, 0) lands
+    nt_pub = t.n_deepest_layer_tiles()
+    tx0, ty0, sx0, sy0 = (int(v) for v in t.image_to_tile(0, 0))
+    got_layout = (nt_pub, tx0 * 256 + sx0, ty0 * 256 + sy0)
+    want_layout = (4 ** rt.levels(w, h), gx0, gy0)
+    if got_layout != want_layout:
+        bad("layout", "(deepest-level tiles, global x/y of image pixel (0,0)) = %r, reference %r" % (got_layout, want_layout))
     iw, ih = w, h
     if sub is not None:
         ix, iy, iw, ih = sub
         t = t.compute_for_subimage(ix, iy, iw, ih)
         gx0, gy0 = gx0 + ix, gy0 + iy
-        if t._tile_levels != rt.levels(w, h):
-            bad("sub-levels", "sub-tiling has %d levels" % t._tile_levels)
+        if t.n_deepest_layer_tiles() != 4 ** rt.levels(w, h):
+            bad("sub-levels", "sub-tiling has %d deepest-level tiles" % t.n_deepest_layer_tiles())
     if iw == 0 or ih == 0:
         return
     part.case(nontrivial=(w % 256 != 0 or h % 256 != 0))
